@@ -206,7 +206,7 @@ def run_check(prop, tier='quick', seed=0, jobs=None, only=None):
     if not idxs:
         print(f'no tasks registered for {prop}', file=sys.stderr)
         return 3
-    budget_ms = int(os.environ.get('VERIF_QUERY_MS', 20000 if tier == 'quick' else 60000))
+    budget_ms = int(os.environ.get('VERIF_QUERY_MS', 20000 if tier == 'quick' else 120000))
     jobs = jobs or int(os.environ.get('VERIF_JOBS', '16'))
     results = []
     task_secs = {}
